@@ -6,7 +6,6 @@ package pc22
 import (
 	"bytes"
 	"encoding/json"
-	"errors"
 	"fmt"
 	"io"
 	"log/slog"
@@ -994,8 +993,10 @@ func c22GenMsg(rt *rapid.T, topic kstr, pid uint16, big bool) *c22Msg {
 
 func c22Gen(rt *rapid.T) c22Case {
 	var c c22Case
-	long := rapid.IntRange(0, 15).Draw(rt, "longclass") == 9 // rapid favours the ends of a range; a middle value keeps the class rare
-	big := rapid.IntRange(0, 59).Draw(rt, "bigclass") == 31  // rapid favours the ends of a range; a middle value keeps the class rare
+	lc := rapid.IntRange(0, 15).Draw(rt, "longclass")
+	long := lc == 9 || lc == 6 // rapid favours the ends of a range; middle values keep the class rare
+	bc := rapid.IntRange(0, 59).Draw(rt, "bigclass")
+	big := bc == 31 || bc == 17
 	reopen := rapid.IntRange(0, 11).Draw(rt, "reopenclass") == 0
 	// collision class: ids "a:b" and "a" with filters "c" and "b:c" share the subscription key "a:b:c"
 	coll := !long && rapid.IntRange(0, 5).Draw(rt, "collisionclass") == 0
@@ -1201,5 +1202,3 @@ func c22Brief(c c22Case) string {
 	}
 	return strings.Join(parts, " ")
 }
-
-var _ = errors.Is
